@@ -70,9 +70,9 @@ def verif_inputs_hash(unit):
             p = os.path.join(VERIF, d, f)
             if os.path.isfile(p) and not f.endswith('.pyc'):
                 h.update(open(p, 'rb').read())
-    for p in (os.path.join(VERIF, 'specs', unit + '.py'), os.path.join(VERIF, 'specs', '_common.py')):
-        if os.path.exists(p):
-            h.update(open(p, 'rb').read())
+    sd = os.path.join(VERIF, 'specs')
+    for p in sorted(os.path.join(sd, f) for f in os.listdir(sd) if f.endswith('.py')):
+        h.update(open(p, 'rb').read())
     for f in sorted(os.listdir(os.path.join(VERIF, 'drivers'))):
         h.update(open(os.path.join(VERIF, 'drivers', f), 'rb').read())
     return h.hexdigest()[:24]
@@ -300,6 +300,9 @@ def build_unit(unit, quiet=True):
     for fn in targets:
         seen = set()
         out = set()
+        if entries[fn].get('inline_callees'):
+            repl[fn] = []
+            continue
         st = list(fmeta[fn]['calls'])
         while st:
             g = st.pop()
